@@ -17,8 +17,10 @@ def consts(tier):
     return dict(Alphabet="{0,1,2}", MaxHay=7, MaxNeedle=3, MaxBuf=5, MaxStart=2)
 
 
-def model_cfg(c, original=False, limit=True):
+def model_cfg(c, original=False, limit=True, shortreads=False, shortiseof=False):
     return f"""CONSTANTS
+ SHORTREADS = {'TRUE' if shortreads else 'FALSE'}
+ SHORTISEOF = {'TRUE' if shortiseof else 'FALSE'}
  Alphabet = {c['Alphabet']}
  MaxHay = {c['MaxHay']}
  MaxNeedle = {c['MaxNeedle']}
@@ -112,6 +114,14 @@ def run(ctx):
     if r0.ok:
         raise core.MachineryError("invariants of Scan.tla accept the defective original algorithm (vacuous?)")
     ctx.notes["original_algorithm_rejected_by"] = r0.violation
+    # 1c. the same algorithm on streams with short reads (every split of every read), and the variant that takes a short read
+    # for the end of the data, which must be rejected
+    sr = dict(c, MaxHay=5 if ctx.quick else 6, MaxNeedle=3, MaxBuf=3, MaxStart=1)
+    r1 = ctx.tlc("Scan", model_cfg(sr, shortreads=True), name="model-shortreads", timeout=3000)
+    core.require_clean(r1, "Scan with short reads")
+    r2 = ctx.tlc("Scan", model_cfg(small, shortreads=True, shortiseof=True, limit=False), name="model-shortiseof", timeout=600, coverage=False)
+    if r2.ok:
+        raise core.MachineryError("invariants of Scan.tla accept a scanner that takes a short read for the end of the data (vacuous?)")
 
     # 2. spec -> code: every scenario of the small model through the real function, every buffer size
     # (the thorough table is one size below the thorough model: TLC refuses to build sets of more than 10^6 rows)
